@@ -215,6 +215,29 @@ where X: CandidType + for<'de> Deserialize<'de> + Debug + PartialEq {
             if a[1] == "-" { let _ = candid::decode_one::<X>(&b); }
             "ok".into()
         }
+        // the cost reported by the public entry points: decode_args_with_config_debug reports what IDLDeserialize charged
+        // (surplus arguments included), quotas equal to the reported cost suffice, one unit less on either does not
+        "p.c07.api" => {
+            let b = sx::unhex(a[0]);
+            let cfg = config(Some(1 << 50), Some(1 << 50));
+            let direct = decode_cfg::<X>(&b, &cfg);
+            let api = candid::utils::decode_args_with_config_debug::<(X,)>(&b, &cfg);
+            match (direct, api) {
+                (Ok((x, c)), Ok(((y,), c2))) => {
+                    if x != y && !format!("{:?}", x).contains("NaN") { return "FAIL values differ".into(); }
+                    if c.decoding_quota != c2.decoding_quota || c.skipping_quota != c2.skipping_quota { return format!("FAIL reported cost {:?}/{:?} differs from the cost charged {:?}/{:?}", c2.decoding_quota, c2.skipping_quota, c.decoding_quota, c.skipping_quota); }
+                    let (d, s) = (c2.decoding_quota.unwrap(), c2.skipping_quota.unwrap());
+                    if candid::utils::decode_args_with_config::<(X,)>(&b, &config(Some(d), Some(s))).is_err() { return "FAIL quotas equal to the reported cost do not suffice".into(); }
+                    if d > 0 && candid::utils::decode_args_with_config::<(X,)>(&b, &config(Some(d - 1), Some(s))).is_ok() { return "FAIL decoding quota below the reported cost suffices".into(); }
+                    if s > 0 && candid::utils::decode_args_with_config::<(X,)>(&b, &config(Some(d), Some(s - 1))).is_ok() { return "FAIL skipping quota below the reported cost suffices".into(); }
+                    if candid::utils::decode_one_with_config::<X>(&b, &config(Some(d), Some(s))).is_err() { return "FAIL decode_one_with_config under the reported cost".into(); }
+                    "ok".into()
+                }
+                (Err(_), Err(_)) => "ok".into(),
+                (Ok(_), Err(e)) => format!("FAIL the API rejects what IDLDeserialize accepts: {}", e),
+                (Err(e), Ok(_)) => format!("FAIL the API accepts what IDLDeserialize rejects: {}", e),
+            }
+        }
         // the quota laws of C07 for native decoding
         "p.c07.native" => {
             let b = sx::unhex(a[0]);
